@@ -255,12 +255,13 @@ class Worker:
         }
 
     def _run_regressions(self, sub: Sub) -> None:
-        if self.shard != 0:
-            return
         d = VERIF_ROOT / 'regress' / self.prop
         if not d.is_dir():
             return
-        for f in sorted(d.glob('*.json')):
+        # the regression cases are dealt out to the shards
+        for k, f in enumerate(sorted(d.glob('*.json'))):
+            if k % max(1, self.nshards) != self.shard:
+                continue
             rep = json.loads(f.read_text())
             if rep.get('sub') != sub.name:
                 continue
